@@ -82,6 +82,11 @@ type LabProp struct {
 	// the modes; with two modes the second calls are also compared with each other including
 	// the error token (memo vs DisableMemoize).
 	RetryModes []proto.Mode
+	// NativeFuzz: in the thorough tier, additionally run a coverage-guided `go test -fuzz`
+	// campaign of this many seconds over (grammar, entry, input) for a fresh batch of grammars,
+	// with the reference interpreter as the oracle inside the fuzz target.
+	NativeFuzz int
+	FuzzOracle string // verdict | tokens | differential (see the FuzzLab target)
 	// SkipCase lets a property leave out grammars outside its quantifier.
 	SkipCase func(cs *lab.Case) bool
 	// NeedBase: when the default-options package does not build the property cannot be observed.
@@ -251,6 +256,10 @@ func runLabProp(c *drv.Ctx, lp *LabProp) error {
 	if lp.Chunks != nil {
 		chunks = lp.Chunks(c)
 	}
+	fuzzOnly := os.Getenv("VERIF_FUZZ_ONLY") != "" && lp.NativeFuzz > 0
+	if fuzzOnly {
+		chunks = 0 // sensitivity experiments: judge the native campaign alone
+	}
 	excluded := map[string]int{}
 	rejected := 0
 	var pkgsBuilt, pkgsFailed, genFailed, hangs, died, budgetSkipped int
@@ -351,6 +360,9 @@ func runLabProp(c *drv.Ctx, lp *LabProp) error {
 			c.Notes = append(c.Notes, unobs...)
 		}
 	}
+	if (c.Thorough() || fuzzOnly) && lp.NativeFuzz > 0 && len(c.Violations) == 0 && c.Inconclusive == "" {
+		labNativeFuzz(c, lp, firstID)
+	}
 	c.Stats.Extra["packages_built"] = pkgsBuilt
 	c.Stats.Extra["packages_failed_to_build"] = pkgsFailed
 	c.Stats.Extra["packages_failed_to_generate"] = genFailed
@@ -361,7 +373,7 @@ func runLabProp(c *drv.Ctx, lp *LabProp) error {
 	c.Stats.Extra["generator_rejects_wellformedness"] = rejected
 	c.Stats.Extra["lab_build_seconds"] = buildSecs
 	if len(c.Violations) == 0 {
-		if pkgsBuilt == 0 {
+		if pkgsBuilt == 0 && !fuzzOnly {
 			drv.Inconclusive("no generated parser could be built (see C08); %d failed to generate, %d failed to compile", genFailed, pkgsFailed)
 		}
 		if hangs > 0 {
@@ -674,4 +686,87 @@ func init() {
 		}
 		return "", nil
 	})
+}
+
+// labNativeFuzz builds a batch with the FuzzLab target and runs the campaign.
+func labNativeFuzz(c *drv.Ctx, lp *LabProp, firstID int) {
+	o := lp.Opts(c)
+	o.N = 48
+	o.FirstID = firstID
+	o.Long = false
+	rejected := 0
+	o.Rejected = &rejected
+	cases := lab.Collect(drv.ShardSeed(c.Seed, "lab-fuzz-"+lp.ID, 0), o)
+	if lp.SkipCase != nil {
+		var keep []*lab.Case
+		for _, cs := range cases {
+			if !lp.SkipCase(cs) {
+				keep = append(keep, cs)
+			}
+		}
+		cases = keep
+	}
+	type seed struct {
+		G     int        `json:"g"`
+		Entry int        `json:"entry"`
+		Input proto.QStr `json:"input"`
+	}
+	var seeds []seed
+	for gi, cs := range cases {
+		for k, in := range cs.Inputs {
+			if len(in) <= 48 && k < 12 {
+				seeds = append(seeds, seed{gi, k % len(cs.G.Rules), in})
+			}
+		}
+	}
+	sb, _ := json.Marshal(seeds)
+	l, err := lab.Build(c, cases, lp.Variants, lab.Options{AllU: lp.AllU, FuzzLab: true, FuzzSeeds: sb, FuzzOracle: lp.FuzzOracle})
+	if err != nil {
+		c.Notes = append(c.Notes, "native fuzz batch did not build: "+firstLine(err.Error()))
+		return
+	}
+	defer l.Close()
+	res, err := runNativeFuzz(c, l.Dir, "FuzzLab", time.Duration(lp.NativeFuzz)*time.Second)
+	if err != nil {
+		c.Notes = append(c.Notes, "native fuzzing did not run: "+firstLine(err.Error()))
+		return
+	}
+	c.Stats.Extra["native_fuzz_execs"] = res.Execs
+	c.Stats.Extra["native_fuzz_seconds"] = res.Seconds
+	c.Stats.Extra["native_fuzz_grammars"] = len(cases)
+	c.Stats.Evaluations += res.Execs
+	if !res.Failed {
+		return
+	}
+	var gi, entry int
+	var input string
+	switch {
+	case res.Baseline && res.SeedIndex >= 0 && res.SeedIndex < len(seeds):
+		sd := seeds[res.SeedIndex]
+		gi, entry, input = sd.G, sd.Entry, string(sd.Input)
+	case res.Baseline || len(res.Args) < 3:
+		c.Notes = append(c.Notes, "native fuzz: a seed input fails in the target: "+tail(res.Output, 600))
+		c.Inconclusive = "native fuzz target failed on its seed corpus (see notes)"
+		return
+	default:
+		gi, _ = strconv.Atoi(res.Args[0])
+		entry, _ = strconv.Atoi(res.Args[1])
+		input = res.Args[2]
+	}
+	cs := cases[gi%len(cases)]
+	entry %= len(cs.G.Rules)
+	cc := *cs
+	cc.Inputs = []proto.QStr{proto.QStr(input)}
+	cc.Hist = nil
+	rp := &LabReplay{Prop: lp.ID, Case: &cc, Entry: entry, Input: proto.QStr(input)}
+	ms := evalLabCases(c, lp, []*LabReplay{rp})[0]
+	if len(ms) == 0 {
+		c.Notes = append(c.Notes, "native fuzz reported a failure that the single-case pipeline does not reproduce: "+tail(res.Output, 500))
+		c.Inconclusive = "native fuzz failure did not reproduce"
+		return
+	}
+	pt := &Point{Case: &cc, Entry: entry, Input: input, Runes: []rune(input)}
+	v := shrinkLab(c, lp, nil, pt, &ms[0])
+	v.What = "(found by go test -fuzz) " + v.What
+	c.AddViolation(*v)
 }
